@@ -2468,7 +2468,11 @@ class Model:
 
                 source_popsize = par.source_popsize(ti)
                 if source_popsize:
-                    converted_frac = converted_amt / source_popsize
+                    # If the source compartments are all but empty (e.g. a denormal number of people left after repeated depletion) the
+                    # quotient overflows to inf, and rescaling the outflows then gives inf*0 = NaN. Any fraction above 1 empties the
+                    # compartment, so cap it at a large finite value
+                    with np.errstate(over="ignore"):
+                        converted_frac = min(converted_amt / source_popsize, 1e100)
                 else:
                     converted_frac = 0.0
 
